@@ -21,6 +21,7 @@ from pathlib import Path
 from .. import common, pipeline
 from ..gen import pdbfmt, workload
 from ..gen import structures as S
+from ..mon import pkastub
 from ..mon import match
 from ..ref import topology as topo
 from ..run import Res
@@ -102,6 +103,30 @@ def cases(tier, seed):
         spec["kind"] = "mixed"
         spec["opts"] = [f"--ff={spec['ff']}"]
         out.append(spec)
+    # option lattice on well-formed structures: stage switches x pKa route x drop-water for every force field, other
+    # output options sprinkled on top; titratable-rich sequences so that titrated states (ASH, GLH, LYN ...) occur
+    rng = random.Random(seed * 5 + 2)
+    for rep in range(4 if tier == "quick" else 160):
+        for ff in common.FFS:
+            for bits in range(8):
+                o = [f"--ff={ff}"]
+                if bits & 1:
+                    o.append("--noopt")
+                if bits & 2:
+                    o += pkastub.titration_opts(rng)
+                if bits & 4:
+                    o.append("--drop-water")
+                for extra in ("--nodebump", "--whitespace", "--keep-chain", "--include-header"):
+                    if rng.random() < 0.2:
+                        o.append(extra)
+                if rng.random() < 0.2:
+                    o.append("--ffout=" + rng.choice(common.FFS))
+                if ff == "PARSE" and rng.random() < 0.25:
+                    o.append(rng.choice(["--neutraln", "--neutralc"]))
+                out.append({"kind": "mixedopts", "w": "synth", "seed": seed * 6007 + len(out), "ff": ff, "opts": o,
+                            "p": {"variant_prob": 0.0, "na": False, "waters": [0, 3], "no_variants": [], "minlen": 4,
+                                  "maxlen": 7, "pool": ["ASP", "GLU", "HIS", "CYS", "TYR", "LYS", "ARG", "ASP", "GLU",
+                                                        "ALA", "SER", "ASN", "GLN", "THR"]}})
     rng = random.Random(seed * 3 + 1)
     nat = NATURAL * (1 if tier == "quick" else 40)
     for i, name in enumerate(nat):
@@ -305,6 +330,35 @@ def run_mixed(spec, res, known_cells=None):
         res.violate(key, f"mixed structure: {type(r.exc).__name__}: {msg}", cells=sorted(set(cells)),
                     ff=spec["ff"], seed=spec["seed"])
     check_after(res, r, False, "mixed", {"ff": spec["ff"], "seed": spec["seed"]})
+
+
+def run_mixedopts(spec, res):
+    m = workload.materialise(spec)
+    with pkastub.for_opts(spec["opts"], m["truth"], spec["seed"]):
+        r = execute(m["text"], spec["opts"], sentinel=False)
+    res.count("executions")
+    res.count("option_lattice_runs")
+    klass = "+".join(sorted({o.split("=")[0].lstrip("-") for o in spec["opts"] if not o.startswith(("--ff=", "--with-ph"))}))
+    res.nt("mixedopts", spec["ff"], klass)
+    res.cell("opts", spec["ff"], klass.count("noopt"), klass.count("titration"), klass.count("drop-water"))
+    failed = not r.ok
+    msg = " | ".join(mm for lv, _n, mm in r.log if lv >= 40)[:200]
+    exc_name = type(r.exc).__name__
+    # judge the output path of this run before anything else touches the watcher
+    check_after(res, r, False, "mixedopts", {"ff": spec["ff"], "seed": spec["seed"], "opts": spec["opts"]})
+    if failed:
+        # does the same structure succeed without the options?  then the options broke a well-formed input
+        plain = execute(m["text"], [f"--ff={spec['ff']}"], sentinel=False)
+        ok_plain = plain.ok
+        plain.cleanup()
+        if ok_plain:
+            res.violate(f"success/options-make-well-formed-input-fail/{klass}", f"{spec['opts']} on a complete standard "
+                        f"structure: {exc_name}: {msg} (the same structure succeeds with --ff alone)",
+                        ff=spec["ff"], opts=spec["opts"], seed=spec["seed"],
+                        residues=[t["resn"] for t in m["truth"]])
+        else:
+            res.count("option_lattice_plain_also_fails")
+            run_mixed(dict(spec, opts=[f"--ff={spec['ff']}"]), res)
 
 
 # ------------------------------------------------------------------------------ natural faults
@@ -671,6 +725,8 @@ def run_case(spec):
     k = spec["kind"]
     if k in ("cell", "nacell"):
         run_cell(spec, res)
+    elif k == "mixedopts":
+        run_mixedopts(spec, res)
     elif k == "mixed":
         run_mixed(spec, res)
     elif k == "natural":
